@@ -178,6 +178,12 @@ module Coq_Pos :
 
   val mul : positive -> positive -> positive
 
+  val iter : ('a1 -> 'a1) -> 'a1 -> positive -> 'a1
+
+  val div2 : positive -> positive
+
+  val div2_up : positive -> positive
+
   val size_nat : positive -> nat
 
   val size : positive -> positive
@@ -288,11 +294,19 @@ module Z :
 
   val odd : z -> bool
 
+  val div2 : z -> z
+
   val log2 : z -> z
 
   val testbit : z -> z -> bool
 
+  val shiftl : z -> z -> z
+
+  val shiftr : z -> z -> z
+
   val coq_lor : z -> z -> z
+
+  val coq_land : z -> z -> z
 
   val ldiff : z -> z -> z
  end
@@ -862,6 +876,48 @@ val ec_loop :
 val extract_color :
   str -> astate option -> ((str * aoff list option) * astate option) res
 
+val term_state : item list -> sgr -> sgr
+
+val piece_chars : item list list -> sgr -> sgr list list
+
+val shown_chars : nat list -> item list list -> sgr -> sgr list
+
+val colour_params : z -> colour -> z list
+
+val attr_params : attrs -> z list
+
+val restore_params : sgr -> z list
+
+val colour_ok : colour -> bool
+
+val sgr_ok : sgr -> bool
+
+val itoa_aux : nat -> z -> str -> str
+
+val itoa : z -> str
+
+val a_BOLDFORCE : z
+
+val to_ansi_string : z -> z -> str
+
+val trim_suffix : str -> str -> str
+
+val has_attr : z -> z -> bool
+
+val state_to_string : astate -> str
+
+val sGR0 : str
+
+val nth_prefix_loop : str list -> astate option -> str list res
+
+val nth_prefix : str list -> astate option -> str list res
+
+val pick_tokens : str list -> nat list -> str res
+
+val nth_display :
+  str list -> nat list -> astate option -> astate option -> ((str * aoff list
+  option) * astate option) res
+
 val v_span : (nat * nat) option res -> val0
 
 val v_url : url option -> val0
@@ -877,6 +933,8 @@ val as_state : val0 -> astate
 val as_state_opt : val0 -> astate option
 
 val v_off : aoff -> val0
+
+val v_extract : ((str * aoff list option) * astate option) res -> val0
 
 val d_extract : str -> astate option -> val0
 
@@ -1884,7 +1942,7 @@ val has_prefix1 : str -> str -> bool
 
 val has_suffix1 : str -> str -> bool
 
-val trim_suffix : str -> str -> str
+val trim_suffix0 : str -> str -> str
 
 val span : (z -> bool) -> str -> nat * str
 
@@ -1954,7 +2012,7 @@ val itoa_pos : nat -> z -> str -> str
 
 val bits : z -> nat
 
-val itoa : z -> str
+val itoa0 : z -> str
 
 val s_dd : str
 
@@ -2182,6 +2240,63 @@ type session = { ss_ops : sop list; ss_submit : bool }
 
 val run_session : nat -> fs -> session -> ((fs * str list) * str) res
 
+type hopt =
+| HFile of str
+| HNoFile
+| HSize of nat
+| HOther
+
+val dEFAULT_HISTORY_SIZE : nat
+
+val eff_file : str option -> hopt list -> str option
+
+val eff_size : nat -> hopt list -> nat
+
+val eff_config : hopt list -> (str * nat) option
+
+type ending =
+| EndAccept of bool
+| EndPrintQuery
+| EndBecome
+| EndAbort
+
+val submits : ending -> bool
+
+val proc_step :
+  (str * nat) option -> ending -> str -> str -> str list -> str list
+
+val has_size : hopt list -> bool
+
+val has_file : hopt list -> bool
+
+val layered_ok : bool -> hopt list list -> bool
+
+type hcfg = (str * nat) option
+
+val parse_words : hcfg -> nat -> hopt list -> hcfg res
+
+val parse_layer : hcfg -> hopt list -> hcfg res
+
+val parse_layers : hcfg -> hopt list list -> hcfg res
+
+type fsys = str -> fs
+
+val fs_upd : fsys -> str -> fs -> fsys
+
+val touch : fsys -> str -> fsys
+
+val touch_words : fsys -> hopt list -> fsys
+
+val exit_code : ending -> z
+
+val records : ending -> bool
+
+val nohist_steps : str -> str list -> sop list -> str * str list
+
+type psession = { p_layers : hopt list list; p_ops : sop list; p_end : ending }
+
+val run_psession : fsys -> psession -> (((fsys * hcfg) * str list) * str) res
+
 val vfs : fs -> val0
 
 val as_fs : val0 -> fs
@@ -2197,6 +2312,22 @@ val d_spec_stored : nat -> fs -> str list -> val0
 val spec_nav_run : nav -> sop list -> str list
 
 val spec_nav : str list -> sop list -> str list
+
+val as_hopt : val0 -> hopt
+
+val as_layers : val0 -> hopt list list
+
+val as_ending : val0 -> ending
+
+val as_psession : val0 -> psession
+
+val vcfg : hcfg -> val0
+
+val as_cfg0 : val0 -> hcfg
+
+val fsys_of : val0 list -> fsys
+
+val d_psessions : str list -> fsys -> psession list -> val0 list
 
 val dispatch_history : z -> val0 -> val0 option
 
@@ -3193,9 +3324,9 @@ val end_validate : cfg0 -> cfg0 outcome
 
 val layer_init : cfg0 -> cfg0
 
-val parse_layer : env -> nat -> cfg0 -> str list -> cfg0 outcome res
+val parse_layer0 : env -> nat -> cfg0 -> str list -> cfg0 outcome res
 
-val parse_layers : env -> nat -> cfg0 -> str list list -> cfg0 outcome res
+val parse_layers0 : env -> nat -> cfg0 -> str list list -> cfg0 outcome res
 
 val s_dotgit : str
 
@@ -3256,19 +3387,19 @@ val filter_parts : bool -> str -> str list -> str list
 val unsorted_body :
   bool -> bool -> (str -> str) -> (nat -> str -> bool) -> str list -> str list
 
-type ending =
+type ending0 =
 | EAccept
 | EPrintQuery
 | EAbort
 | EError
 
-val exit_status : ending -> str list -> z
+val exit_status : ending0 -> str list -> z
 
 val accept_parts :
   bool -> str -> bool -> str -> str list -> str list -> str list
 
 val stdout_of :
-  ending -> z -> bool -> str -> bool -> str -> str list -> str list -> str
+  ending0 -> z -> bool -> str -> bool -> str -> str list -> str list -> str
 
 val sel_mem0 : ('a1 -> nat) -> 'a1 -> 'a1 list -> bool
 
@@ -3312,7 +3443,7 @@ val ev_step : nat -> (nat list * str list) -> sel_event -> nat list * str list
 
 val session_result :
   z -> bool -> str -> bool -> str -> (nat -> str) -> nat -> sel_event list ->
-  nat option -> ending -> str * z
+  nat option -> ending0 -> str * z
 
 val strip_prefix0 : str -> str -> str option
 
@@ -3428,7 +3559,7 @@ val join_transform : str list -> range list -> str res
 
 val strip_suffix_rev : str -> str -> str option
 
-val trim_suffix0 : str -> str -> str
+val trim_suffix1 : str -> str -> str
 
 val is_space_byte : z -> bool
 
@@ -3438,7 +3569,7 @@ val strip_last_delimiter : delim -> str -> str
 
 val itoa_fuel : nat -> z -> str -> str
 
-val itoa0 : z -> str
+val itoa1 : z -> str
 
 val template_loop : delim -> str list -> z -> nth_part list -> str -> str res
 
@@ -3613,7 +3744,7 @@ val d_interactive : val0 -> val0
 
 val as_event : val0 -> sel_event
 
-val as_ending : val0 -> ending
+val as_ending0 : val0 -> ending0
 
 val d_session_spec : val0 -> val0
 
@@ -4982,7 +5113,7 @@ val as_layout : val0 -> layout
 
 val as_info : val0 -> info_style
 
-val as_cfg0 : val0 -> cfg1
+val as_cfg1 : val0 -> cfg1
 
 val as_match : val0 -> nat * str
 
@@ -5213,7 +5344,7 @@ val vmodes : modes -> val0
 
 val vev : mev -> val0
 
-val as_cfg1 : val0 -> cfg2
+val as_cfg2 : val0 -> cfg2
 
 val as_lop0 : val0 -> lop0
 
@@ -5363,7 +5494,7 @@ val digits_of : nat -> z -> str -> str
 
 val digits : z -> str
 
-val itoa1 : z -> str
+val itoa2 : z -> str
 
 val dOT1 : z
 
@@ -5441,7 +5572,7 @@ val has_suffix3 : str -> str -> bool
 
 val contains1 : str -> str -> bool
 
-val trim_suffix1 : str -> str -> str
+val trim_suffix2 : str -> str -> str
 
 val split_go : str -> nat -> str -> str -> str list
 
@@ -5487,7 +5618,7 @@ val transform_input : str -> range0 list -> delimiter -> token list res
 
 type match_fn = str -> ((nat * nat) * nat list) option
 
-val iter : match_fn -> token list -> ((z * z) * z list) option
+val iter0 : match_fn -> token list -> ((z * z) * z list) option
 
 val nth_match :
   match_fn -> str -> range0 list -> delimiter -> ((z * z) * z list) option res
